@@ -22,16 +22,16 @@ def _writer(R, fam, ascii_mode):
     text = X.strip_comments(X.read_source(rel))
     (p,) = X.cut(rel, r'template<bool\s+iomode>\s*void\s+Grid%s::write\s*\(\s*std::ostream\s*&os\s*\)\s*const' % fam, text)
     b = p.body
-    b = R.sub("R12-ascii-format", r'if\s*\(\s*iomode\s*==\s*mode_ascii\s*\)\s*\{\s*os\s*<<\s*std::scientific\s*;\s*os\.precision\(17\)\s*;\s*\}', '', b)
+    b = R.sub("R12-ascii-format", r'if\s*\(\s*iomode\s*==\s*mode_ascii\s*\)\s*\{\s*os\s*<<\s*std::scientific\s*;\s*os\.precision\(17\)\s*;\s*\}', 'tape_fmt_set = true;' if ascii_mode else '', b)
     b = R.sub("R3-template-param", r'\biomode\s*==\s*mode_ascii\b', '1' if ascii_mode else '0', b)
     def numbers(m, a):
         parts = X.split_top(a)
-        return " ".join("tape_write_num((double)(%s));" % q for q in parts[1:]) + " (void)0"
+        return " ".join(("tape_write_dbl((double)(%s));" if q.strip() in ("alpha", "beta") else "tape_write_num((double)(%s));") % q for q in parts[1:]) + " (void)0"
     b = X.balanced_call_sub(R, "R12-writeNumbers", b, r'IO::writeNumbers<[^>]*>\s*(?=\()', numbers)
     b = X.balanced_call_sub(R, "R12-writeRule", b, r'IO::writeRule<[^>]*>\s*(?=\()', lambda m, a: "tape_write_rule((int)(%s))" % X.split_top(a)[0])
     b = X.balanced_call_sub(R, "R12-writeFlag", b, r'IO::writeFlag<[^>]*>\s*(?=\()', lambda m, a: "tape_write_flag(%s)" % X.split_top(a)[0])
     b = X.balanced_call_sub(R, "R12-writeVector", b, r'IO::writeVector<[^>]*>\s*(?=\()', lambda m, a: "tape_write_vec(%s)" % X.split_top(a)[0])
-    b = R.sub("R12-member-writeVector", r'\b(\w+)\.writeVector<[^>]*>\(\s*os\s*\)', r'tape_write_vec(\1)', b)
+    b = R.sub("R12-member-writeVector", r'\b(\w+)\.writeVector<[^>]*>\(\s*os\s*\)', lambda m: ("tape_write_dvec(%s)" if m.group(1) in ("surpluses", "coefficients", "fourier_coefs") else "tape_write_vec(%s)") % m.group(1), b)
     b = R.sub("R12-member-write", r'\b(\w+)\.write<\s*iomode\s*>\(\s*os\s*\)', r'tape_write_obj(\1)', b)
     b = R.sub("R5g-empty", r'\b(\w+)\.empty\(\)', lambda m: ("(g->%s.n == 0)" if m.group(1) in OBJ_MEMBERS else "(g->%s.len == 0)") % m.group(1), b)
     b = R.sub("R5g-size", r'\b(\w+)\.size\(\)', r'g->\1.len', b)
